@@ -334,7 +334,8 @@ class EquationSolver(object):
         else:
             err_toler = self.ParameterErrorTolerance
         num_tries = 0
-        trace_keys = list(initial.keys())
+        # Only variables are traced (user-supplied functions also live in this dictionary).
+        trace_keys = [x for x in initial.keys() if x not in self.Functions]
         trace_keys.sort()
         # Logger('\t'.join(['Iteration', 'PreviousError'] + trace_keys), log='step')
         # The following two assignments not really necessary, but the code inspection
